@@ -388,7 +388,7 @@ func (f *forced) advance(i int) {
 		f.st[i].status = "done"
 		f.res[i] = "ENil"
 		f.pending = append(f.pending, i)
-		f.r.peerQ <- peerBytes(a.Ev, i)
+		f.r.peerQ <- peerBytes(a.Ev, i, f.sc.WS)
 		f.serveWakes()
 		return
 	case "timer":
@@ -473,7 +473,7 @@ func runForced(sc *Scenario, choose func(depth int, enabled []int) int) *Outcome
 	progress(sc)
 	n := len(sc.Actors)
 	o := &Outcome{Res: make([]string, n), afterClose: make([]bool, n)}
-	r, err := newRig(sc.DLSup, sc.Recv)
+	r, err := newRig(sc.DLSup, sc.Recv, sc.WS)
 	if err != nil {
 		o.Problems = append(o.Problems, Problem{"C10/setup", "could not build a ready session: " + err.Error()})
 		return o
